@@ -234,8 +234,9 @@ func GetNativePathAttributes(p *api.Path) ([]bgp.PathAttributeInterface, error) 
 	return UnmarshalPathAttributes(p.Pattrs)
 }
 
+// ToFamily converts an API family; an absent family is the zero (unknown) family.
 func ToFamily(f *api.Family) bgp.Family {
-	return bgp.NewFamily(uint16(f.Afi), uint8(f.Safi))
+	return bgp.NewFamily(uint16(f.GetAfi()), uint8(f.GetSafi()))
 }
 
 func ToApiFamily(afi uint16, safi uint8) *api.Family {
